@@ -66,18 +66,20 @@ def proj_from_snap(s):
             int(t["debited"]), oi(t["fee"]), oi(t["ttl"]), t["n_in"], t["n_out"], 1 if t["has_excess"] else 0]
            for t in s["txs"]]
     child = sorted([c[0], c[1]] for c in s["child"] if c[1] != 0)
-    return [outs, txs, child, [sorted(s["contexts"])]]
+    info = [[int(x) if not isinstance(x, str) or x.isdigit() else -7 for x in row] for row in s.get("info", [])]
+    return [outs, txs, child, [sorted(s["contexts"])], info]
 
 
 def canon(proj):
     """ConfirmedCoinbase log ids are assigned in HashMap iteration order by the
     implementation (apply_api_outputs iterates a HashMap), so coinbase entries are compared
     as a multiset: their ids, and references to them from outputs, become one constant."""
-    outs, txs, child, ctxs = proj
+    outs, txs, child, ctxs = proj[:4]
+    info = proj[4] if len(proj) > 4 else []
     cb_ids = set((t[0], t[1]) for t in txs if t[3] == 0)
     outs2 = [o[:9] + [1000000 if (o[0], o[9]) in cb_ids else o[9]] for o in outs]
     txs2 = sorted([[t[0], 1000000 if (t[0], t[1]) in cb_ids else t[1]] + t[2:] for t in txs])
-    return [outs2, txs2, sorted(child), [sorted(ctxs[0])] if ctxs and ctxs[0] else [[]]]
+    return [outs2, txs2, sorted(child), [sorted(ctxs[0])] if ctxs and ctxs[0] else [[]], info]
 
 
 def run_harness(binp, prop, profile, n_hist, steps, shards, seed_mul=1):
@@ -106,6 +108,8 @@ def model_traces(prop, rows):
     for r in rows:
         ops, lay = [], []
         for s in r["steps"]:
+            if s["extra"].get("nomodel"):
+                break
             t = op_terms(s["op"])
             ops.extend(t)
             lay.append(len(t))
@@ -130,12 +134,12 @@ def compare(rows, traces):
         for idx, (s, (mrc, mproj)) in enumerate(zip(r["steps"], tr)):
             irc = s["rc"]
             ip = canon(proj_from_snap(s["snap"]))
-            mp = canon([mproj[0], mproj[1], mproj[2], mproj[3]])
+            mp = canon([mproj[0], mproj[1], mproj[2], mproj[3], mproj[4]])
             if irc != mrc or ip != mp:
                 what = []
                 if irc != mrc:
                     what.append("result impl=%s model=%s" % (irc, mrc))
-                for name, a, b in zip(["outputs", "txs", "child", "contexts"], ip, mp):
+                for name, a, b in zip(["outputs", "txs", "child", "contexts", "info"], ip, mp):
                     if a != b:
                         da = [x for x in a if x not in b]
                         db = [x for x in b if x not in a]
@@ -185,5 +189,210 @@ def oracle_c03(rows):
                 if o["status"] == 2 and (o["root"], o["tx"]) not in live:
                     fails.append({"row": (r["hist"], r["wallet"]), "seed": r["seed"], "step": idx,
                                   "what": "Locked output %s not held by a live TxSent entry" % ((o["acct"], o["child"]),)})
+            prev = snap
+    return fails
+
+
+def _fail(r, idx, what):
+    return {"row": (r["hist"], r["wallet"]), "seed": r["seed"], "step": idx, "what": what}
+
+
+def sv_map(snap):
+    return {(o["acct"], o["child"], o["mmr"]): (o["value"], o["status"]) for o in snap["outputs"]}
+
+
+def oracle_c05(rows):
+    """Cancel: frame (only records linked to the cancelled entry change; only that entry, only
+    its type), refusals change nothing, and rollback: after a successful cancel of a sent
+    transaction its inputs have the status they had before the reservation and its change
+    outputs are gone."""
+    fails = []
+    for r in rows:
+        prev = None
+        reserved = {}   # (parent, id) -> {"before": sv map before the lock, "ins": [...], "refreshed": bool}
+        for idx, s in enumerate(r["steps"]):
+            snap = s["snap"]
+            k = s["op"]["k"]
+            if prev is not None and k == "lock" and s["rc"] == [0]:
+                new = [t for t in snap["txs"] if t["type"] == 2 and (t["parent"], t["id"]) not in
+                       {(x["parent"], x["id"]) for x in prev["txs"]}]
+                if len(new) == 1:
+                    reserved[(new[0]["parent"], new[0]["id"])] = {
+                        "before": sv_map(prev), "ins": s["extra"].get("ctx_inputs") or [], "refreshed": False,
+                        "keys_before": set(sv_map(prev))}
+            if k in ("refresh", "init_send", "update_state"):
+                for v in reserved.values():
+                    v["refreshed"] = True
+            if prev is not None and k == "cancel":
+                if s["rc"] != [0]:
+                    if canon(proj_from_snap(prev))[:4] != canon(proj_from_snap(snap))[:4]:
+                        fails.append(_fail(r, idx, "refused cancel changed the wallet"))
+                else:
+                    po, no = outputs_by_key(prev), outputs_by_key(snap)
+                    ptx = {(t["parent"], t["id"]): t for t in prev["txs"]}
+                    ntx = {(t["parent"], t["id"]): t for t in snap["txs"]}
+                    changed = [kk for kk in ptx if ptx[kk] != ntx.get(kk)]
+                    if len(changed) != 1 or set(ntx) != set(ptx):
+                        fails.append(_fail(r, idx, "cancel changed %d log entries" % len(changed)))
+                        prev = snap
+                        continue
+                    ck = changed[0]
+                    a, b = ptx[ck], ntx[ck]
+                    if {kk: v for kk, v in a.items() if kk != "type"} != {kk: v for kk, v in b.items() if kk != "type"} \
+                            or b["type"] not in (3, 4):
+                        fails.append(_fail(r, idx, "cancel altered more than the entry's type"))
+                    for key in set(po) | set(no):
+                        if po.get(key) != no.get(key):
+                            o = po.get(key)
+                            if o is None or o["tx"] != ck[1] or o["root"] != ck[0]:
+                                fails.append(_fail(r, idx, "cancel of entry %s touched unrelated output %s" % (ck, key)))
+                    # rollback of a reservation
+                    if ck in reserved:
+                        info = reserved.pop(ck)
+                        after = sv_map(snap)
+                        for a_, c_, m_, _v in info["ins"]:
+                            before = info["before"].get((a_, c_, m_))
+                            now = after.get((a_, c_, m_))
+                            if before is None:
+                                continue
+                            ok = now == before or (info["refreshed"] and now is not None and now[0] == before[0])
+                            if not ok:
+                                fails.append(_fail(r, idx, "rollback: input %s was %s before the reservation, %s after cancel"
+                                                   % ((a_, c_, m_), before, now) +
+                                                   (" [unconfirmed-input]" if before[1] == 0 and now and now[1] == 1 else "")))
+                        for key, o in no.items():
+                            if o["tx"] == ck[1] and o["root"] == ck[0] and key not in info["keys_before"] and o["status"] == 0:
+                                fails.append(_fail(r, idx, "rollback: change output %s of cancelled entry still present" % (key,)))
+            prev = snap
+    return fails
+
+
+def spendable(snap, mc=1):
+    for row in snap.get("info", []):
+        if row[0] == mc and len(row) > 2:
+            return int(row[1])
+    return None
+
+
+def oracle_c07(rows):
+    """Foreign calls (receive_tx, build_coinbase, finalize_tx without a validly counter-signed
+    reply): no existing output changes, nothing is removed, no context is consumed, spendable
+    does not decrease; a successful receive adds exactly one Unconfirmed output of the slate's
+    amount and one received entry, and the reply carries only the recipient's own entry."""
+    fails = []
+    for r in rows:
+        prev = None
+        for idx, s in enumerate(r["steps"]):
+            snap = s["snap"]
+            ex = s["extra"]
+            k = s["op"]["k"]
+            is_foreign = ex.get("foreign") or (k == "finalize" and ex.get("forged"))
+            legit_finalize = k == "finalize" and s["rc"] == [0] and not ex.get("forged")
+            if prev is not None and is_foreign and not legit_finalize:
+                po, no = outputs_by_key(prev), outputs_by_key(snap)
+                for key, o in po.items():
+                    n = no.get(key)
+                    if n is None:
+                        # the coinbase candidate exception cannot remove either
+                        fails.append(_fail(r, idx, "foreign %s removed output %s" % (k, key)))
+                    elif n != o:
+                        replaced_candidate = (k == "coinbase" and o["cb"] and o["status"] == 0 and
+                                              s["op"]["key"] == [key[0], key[1]])
+                        if not replaced_candidate:
+                            tag = " [late-lock]" if k == "finalize" and n["status"] == 2 else ""
+                            fails.append(_fail(r, idx, "foreign %s changed existing output %s: %s -> %s%s"
+                                               % (k, key, (o["value"], o["status"]), (n["value"], n["status"]), tag)))
+                if not set(prev["contexts"]) <= set(snap["contexts"]):
+                    fails.append(_fail(r, idx, "foreign %s consumed a private context" % k))
+                sp0, sp1 = spendable(prev), spendable(snap)
+                if sp0 is not None and sp1 is not None and sp1 < sp0:
+                    fails.append(_fail(r, idx, "foreign %s decreased spendable %d -> %d" % (k, sp0, sp1)))
+                if k == "receive" and s["rc"] == [0]:
+                    added = [o for key, o in no.items() if key not in po]
+                    if len(added) != 1 or added[0]["status"] != 0 or int(added[0]["value"]) != int(s["op"]["amount"]):
+                        fails.append(_fail(r, idx, "receive did not add exactly one Unconfirmed output of the slate amount"))
+                    if len(snap["txs"]) != len(prev["txs"]) + 1:
+                        fails.append(_fail(r, idx, "receive did not add exactly one log entry"))
+                    if ex.get("reply_participants") != 1:
+                        fails.append(_fail(r, idx, "reply carries %s participant entries" % ex.get("reply_participants")))
+                if k == "receive" and s["rc"] != [0] and s["op"].get("crypto_ok", True):
+                    if canon(proj_from_snap(prev))[:4] != canon(proj_from_snap(snap))[:4]:
+                        fails.append(_fail(r, idx, "refused receive changed the wallet"))
+            prev = snap
+    return fails
+
+
+def oracle_c15(rows):
+    """No derivation path is given to two different outputs: a record appearing under a key
+    that was ever used before (even by a record deleted since), or an existing record being
+    overwritten with another output, is a reuse — except a coinbase replacing its own
+    still-unconfirmed candidate. All keys lie below the account's next-child counter."""
+    fails = []
+    for r in rows:
+        ever = {}      # (acct, child) -> identity (root, cb, value)
+        prev = None
+        for idx, s in enumerate(r["steps"]):
+            snap = s["snap"]
+            child = {c[0]: c[1] for c in snap["child"]}
+            po = {(o["acct"], o["child"]): o for o in prev["outputs"]} if prev else {}
+            for o in snap["outputs"]:
+                key = (o["acct"], o["child"])
+                ident = (o["root"], o["cb"], o["value"])
+                if o["mmr"] is None and o["child"] >= child.get(o["acct"], 0):
+                    fails.append(_fail(r, idx, "key %s not below the next-child counter %s" % (key, child.get(o["acct"], 0))))
+                if key in ever and ever[key] != ident:
+                    old = po.get(key)
+                    candidate = o["cb"] and ever[key][1] and (old is None or old["status"] == 0)
+                    if not candidate:
+                        fails.append(_fail(r, idx, "derivation path %s reused: was %s, now %s" % (key, ever[key], ident)))
+                ever[key] = ident
+            prev = snap
+    return fails
+
+
+def oracle_c17(rows):
+    """Expired slates are refused with no state change; slates without a cutoff or with a
+    cutoff ahead are never refused as expired; update_wallet_state at a tip at or beyond the
+    cutoff cancels the wallet's own unconfirmed entries carrying it, and no others."""
+    fails = []
+    for r in rows:
+        prev = None
+        for idx, s in enumerate(r["steps"]):
+            snap = s["snap"]
+            k = s["op"]["k"]
+            if prev is not None and k in ("receive", "finalize"):
+                ttl = int(s["op"]["ttl"])
+                confh = prev["conf_h"]
+                expired = ttl != 0 and confh >= ttl
+                if k == "finalize" and s["rc"] == [1, 21]:
+                    pass   # no context: refused before the TTL test
+                elif expired:
+                    if s["rc"] != [1, 7]:
+                        fails.append(_fail(r, idx, "%s of a slate with cutoff %d accepted/other at observed height %d: %s"
+                                           % (k, ttl, confh, s["rc"])))
+                    if canon(proj_from_snap(prev))[:4] != canon(proj_from_snap(snap))[:4]:
+                        fails.append(_fail(r, idx, "expired %s changed the wallet" % k))
+                elif s["rc"] == [1, 7]:
+                    fails.append(_fail(r, idx, "%s refused as expired with cutoff %d at observed height %d" % (k, ttl, confh)))
+            if prev is not None and k == "update_state" and s["rc"] == [0]:
+                tip = s["op"]["tip"]
+                act = prev["active"]
+                ptx = {(t["parent"], t["id"]): t for t in prev["txs"]}
+                for t in snap["txs"]:
+                    p = ptx.get((t["parent"], t["id"]))
+                    if p is None:
+                        continue
+                    was_live = p["type"] in (1, 2, 5) and not p["confirmed"]
+                    due = p["ttl"] is not None and tip >= p["ttl"] and p["parent"] == act
+                    now_cancelled = t["type"] in (3, 4) and p["type"] not in (3, 4)
+                    if was_live and due and not t["confirmed"] and not now_cancelled:
+                        fails.append(_fail(r, idx, "entry %s with cutoff %s not cancelled at tip %d" % ((t["parent"], t["id"]), p["ttl"], tip)))
+                    if now_cancelled and not due:
+                        fails.append(_fail(r, idx, "entry %s cancelled by the refresh without a due cutoff (ttl %s, tip %d)"
+                                           % ((t["parent"], t["id"]), p["ttl"], tip)))
+                    if now_cancelled and due:
+                        for o in snap["outputs"]:
+                            if o["tx"] == t["id"] and o["root"] == t["parent"] and o["status"] == 2:
+                                fails.append(_fail(r, idx, "expired entry cancelled but output %s still Locked" % ((o["acct"], o["child"]),)))
             prev = snap
     return fails
